@@ -221,6 +221,43 @@ func c13Exec(c *Ctx, op string) string {
 				}
 			}
 		}
+		if f[1] == "eniPolicy" {
+			// traffic sourced from the pod leaves via that interface's gateway: the default route of the interface's table
+			// goes to the gateway of the interface the table belongs to - the trunk's own gateway for a trunk member
+			// (StripVlan), the pod subnet's gateway otherwise
+			for _, fam := range []string{"4", "6"} {
+				if !pc.famOn[fam] {
+					continue
+				}
+				want := pc.cfg.GatewayIP.IPv4
+				if pc.cfg.StripVlan {
+					want = pc.cfg.ENIGatewayIP.IPv4
+				}
+				if fam == "6" {
+					want = pc.cfg.GatewayIP.IPv6
+					if pc.cfg.StripVlan {
+						want = pc.cfg.ENIGatewayIP.IPv6
+					}
+				}
+				found := false
+				for _, r := range conf.Routes {
+					if r.Table != table || r.Dst == nil {
+						continue
+					}
+					ones, _ := r.Dst.Mask.Size()
+					if ff, _ := ipTok(r.Dst.IP); ff != fam || ones != 0 {
+						continue
+					}
+					found = true
+					if !r.Gw.Equal(want) {
+						c.Violate("C13/eni-table-gateway", fmt.Sprintf("the default route of table %d (family %s, trunk=%v) goes via %v, the interface's gateway is %v", table, fam, pc.cfg.StripVlan, r.Gw, want), op)
+					}
+				}
+				if !found {
+					c.Violate("C13/eni-table-gateway", fmt.Sprintf("no default route of family %s in table %d", fam, table), op)
+				}
+			}
+		}
 		for _, fam := range []string{"4", "6"} {
 			if pc.famOn[fam] {
 				continue
